@@ -48,6 +48,9 @@ func newRunCommand() *cli.Command {
 				return fmt.Errorf("no target specified")
 			}
 
+			// contexts are shut down once, after the last target, whether it succeeded or failed
+			defer taskRunner.Finish()
+
 			for _, v := range c.Args().Slice() {
 				if v == "--" {
 					break
@@ -70,6 +73,8 @@ func newRunCommand() *cli.Command {
 				ArgsUsage: "task (TASK1) [TASK2]... [flags] [-- TASK_ARGS]",
 				Usage:     "run specified task(s)",
 				Action: func(c *cli.Context) error {
+					defer taskRunner.Finish()
+
 					for _, v := range c.Args().Slice() {
 						if v == "--" {
 							break
@@ -127,7 +132,6 @@ func runPipeline(g *scheduler.ExecutionGraph, taskRunner *runner.TaskRunner, sum
 	if err != nil {
 		return err
 	}
-	sd.Finish()
 
 	fmt.Fprint(os.Stdout, "\r\n")
 
@@ -139,14 +143,7 @@ func runPipeline(g *scheduler.ExecutionGraph, taskRunner *runner.TaskRunner, sum
 }
 
 func runTask(t *task.Task, taskRunner *runner.TaskRunner) error {
-	err := taskRunner.Run(t)
-	if err != nil {
-		return err
-	}
-
-	taskRunner.Finish()
-
-	return nil
+	return taskRunner.Run(t)
 }
 
 func taskArgs(c *cli.Context) []string {
